@@ -406,3 +406,79 @@ Example C08_ex_ext_trace :
              ginit in
   map fst (store (ms g)) = [4; 1]%N /\ map p_pid (parts (ms g)) = [1; 4]%N.
 Proof. vm_compute. split; reflexivity. Qed.
+
+(* ================================================================================================================
+   SEVERAL PART STORES and cross-store TransitionObjectStorageClass (Model/MetaGcStores.v).
+   A part row records the store its bytes live in ([r_store]); [blobs] is what the stores physically hold, keyed by
+   (store, part id); the registry counts part rows per id whatever the store.  Operations ([sop]): PutObject into
+   the store of the object's class, AppendObject in place and as a new version sharing the old parts, CopyObject
+   (same-store parts shared, cross-store parts shared through the destination store's dedup index or copied),
+   TransitionObjectStorageClass (parts in the target store stay with a pre-acquired reference, the others are
+   relocated under fresh ids, the source parts whose LAST reference went are deleted from the store on their rows),
+   deletes, multipart upload incl. part replacement, UploadPartCopy sharing a whole part, complete/abort.
+   Trace = any list of { one whole operation transaction | reconciliation snapshot | apply one observation |
+   prune+backfill | GetPartIds of ONE store with any subset exempted as young | condemn one listed (store, id) |
+   the later DeletePart of one condemned (store, id) on that store, or its failure | a crashed writer's orphan file },
+   pooled work lists (any number of collectors).
+   ================================================================================================================ *)
+From Verif Require Import MetaGcStores StoresBasics StoresBlocks StoresOps StoresGc.
+
+(* SAFETY PER STORE: in every state reachable by any interleaving, every part row (of a committed object, an older
+   version or a pending upload) has its recorded bytes in THE STORE NAMED ON THE ROW — whoever else shared the
+   part, wherever the sharers were transitioned to, in whatever order they were transitioned/deleted *)
+Theorem C08_stores_safe : forall tr,
+  let s := sm (srun_trace sginit tr) in
+  forall r, In r (rows s) -> bget (blobs s) (r_store r, r_id r) = Some (r_cont r).
+Proof. exact stores_safe. Qed.
+Print Assumptions C08_stores_safe.
+
+(* … hence every holder (object row, version row, pending upload) reads back completely *)
+Theorem C08_stores_every_sharer_readable : forall tr h,
+  let s := sm (srun_trace sginit tr) in
+  read_rows s (rows_of s h) = Some (concat (map r_cont (rows_of s h))).
+Proof. exact stores_readable. Qed.
+Print Assumptions C08_stores_every_sharer_readable.
+
+(* the registry's ref_count equals the number of part rows of the id over ALL stores, row absent iff zero *)
+Theorem C08_stores_registry_exact : forall tr id,
+  let s := sm (srun_trace sginit tr) in
+  rget (reg s) id = if N.eqb (scount s id) 0 then None else Some (scount s id).
+Proof. exact stores_registry_exact. Qed.
+Print Assumptions C08_stores_registry_exact.
+
+(* an id on a collector's condemned list has no part row, no registry row and no dedup entry in any store *)
+Theorem C08_stores_condemned_unreferenced : forall tr k,
+  let g := srun_trace sginit tr in
+  In k (sg_cond g) ->
+  let s := sm g in
+  scount s (snd k) = 0%N /\ rget (reg s) (snd k) = None /\ (forall key, ~ In (key, snd k) (idx s)).
+Proof. exact stores_condemned_dead. Qed.
+Print Assumptions C08_stores_condemned_unreferenced.
+
+(* the operation-level statement behind it: EVERY operation preserves the invariant (written out: registry exact,
+   rows present in their store, dedup entries sound, only old ids stored), for every set D of dead ids *)
+Theorem C08_stores_every_operation_preserves : forall (D : N -> Prop) s o,
+  SInv D s -> SInv D (fst (sop_run s o)).
+Proof. exact sop_run_SInv. Qed.
+Print Assumptions C08_stores_every_operation_preserves.
+Print PI.
+
+(* non-vacuity: two objects share one part in the default store (an identical PutObject deduplicated onto it),
+   a third shares it through UploadPartCopy; one sharer is transitioned to store 1: the shared source part stays;
+   the second sharer follows: still there for the pending upload; the upload is aborted: the last reference goes
+   and the source part is deleted inline; both transitioned objects read back from store 1 *)
+Definition sx (h cs : N) : hold := {| h_id := h; h_cs := cs; h_vkey := None; h_pend := false |}.
+Definition ex_share : list sstep :=
+  [TOpS (QPut (sx 0 0) B"x"); TOpS (QPut (sx 1 0) B"x"); TOpS (QCreateUpload (sx 9 0)); TOpS (QUploadCopy 0 9 1)].
+Example C08_ex_stores_shared :
+  let s := sm (srun_trace sginit ex_share) in reg s = [(1, 3)]%N /\ map fst (blobs s) = [(0, 1)]%N.
+Proof. vm_compute. split; reflexivity. Qed.
+Example C08_ex_stores_transition_one_sharer :
+  let s := sm (srun_trace sginit (ex_share ++ [TOpS (QTransition 0 1)])) in
+  reg s = [(1, 2); (3, 1)]%N /\ map fst (blobs s) = [(1, 3); (0, 1)]%N /\ read_rows s (rows_of s 1) = Some B"x".
+Proof. vm_compute. repeat split; reflexivity. Qed.
+Example C08_ex_stores_last_reference :
+  let s := sm (srun_trace sginit (ex_share ++ [TOpS (QTransition 0 1); TObserve; TList 0 []; TOpS (QTransition 1 1);
+                                               TCondemn 0; TOpS (QDrop 9); TReconcile 0 false])) in
+  map fst (blobs s) = [(1, 4); (1, 3)]%N /\ read_rows s (rows_of s 0) = Some B"x" /\ read_rows s (rows_of s 1) = Some B"x".
+Proof. vm_compute. repeat split; reflexivity. Qed.
